@@ -4,17 +4,17 @@ CONSTANTS
   CELLS <- CELLS_q
   GENS <- GENS_q
   ROTS <- ROTS_id
-  MaxDepth = 6
+  MaxDepth = 5
   FORGET = {}
-  NOCOPY = {"B"}
-  OBJ = "grain"
+  NOCOPY = {}
+  OBJ = "tmap"
   ALIASARG = FALSE
   UNWRITTEN = {}
-  EmitMode = 0
+  EmitMode = 2
 INVARIANT Coherent
 INVARIANT ReadFresh
 INVARIANT DepClosed
 INVARIANT CacheType
 INVARIANT UbiOwn
-VIEW View
+INVARIANT EmitFinal
 CHECK_DEADLOCK FALSE
